@@ -909,3 +909,124 @@ func sliceLen(act *eng.CEResult, v ssa.Value, depth int) (int64, bool) {
 	}
 	return 0, false
 }
+
+// pointOnLineRule (C11/C12): RobustLineIntersector.computePointOnLineIntersection decides "the point is on the segment"
+// from exact predicates of the three input coordinates only: with the envelope test and the orientation of
+// (lineStart, lineEnd, point) bound to each of their values, the class stored is PointIntersection exactly when the
+// point is inside the segment's envelope and collinear. An orientation or envelope test applied to anything other
+// than the three parameters (a rounded difference, a copy) leaves the decision unbound and is reported.
+func pointOnLineRule(p *core.Program, r *core.Report, rule string) {
+	r.Rule(rule, "predicate abstraction: RobustLineIntersector.computePointOnLineIntersection evaluated with point, lineStart, lineEnd as opaque symbols, internal.IsPointWithinLineBounds(point, lineStart, lineEnd) bound to in/out and bigxy.OrientationIndex of the three parameters (either direction of the segment) bound to -1/0/+1 stores PointIntersection exactly for (in, 0) and NoIntersection otherwise; every orientation / envelope test it reaches is applied to the three parameters themselves (an exact predicate of the inputs, not of computed values)", 6)
+	fn := mustFn(p, r, rule, c12Lines, "(RobustLineIntersector).computePointOnLineIntersection")
+	if fn == nil || len(fn.Params) != 5 {
+		return
+	}
+	c := &c12ctx{p: p, r: r, main: fn}
+	pt, ok := fn.Params[1].Type().Underlying().(*types.Pointer)
+	if !ok {
+		return
+	}
+	st, ok := pt.Elem().Underlying().(*types.Struct)
+	if !ok {
+		return
+	}
+	c.dataStruct = st
+	c.typeField, c.ptsField, c.linesField = -1, -1, -1
+	for i := 0; i < st.NumFields(); i++ {
+		if namedTypeQual(st.Field(i).Type()) == mod+"/xy/lineintersection.Type" {
+			c.typeField = i
+		}
+	}
+	lp := p.Pkg("xy/lineintersection")
+	cv := func(n string) int64 {
+		if lp != nil {
+			if k, ok := lp.Types.Scope().Lookup(n).(*types.Const); ok {
+				v, _ := eng.ConstInt64(k.Val())
+				return v
+			}
+		}
+		return -99
+	}
+	c.none, c.point, c.collinear = cv("NoIntersection"), cv("PointIntersection"), cv("CollinearIntersection")
+	if c.typeField < 0 || c.none == -99 {
+		r.Lost(rule, short(fn), "the data record or the class constants no longer resolve")
+		return
+	}
+	names := []string{"point", "lineStart", "lineEnd"}
+	idx := func(v eng.CVal) int {
+		if v.K != eng.CSym {
+			return -1
+		}
+		for i, n := range names {
+			if n == v.S {
+				return i
+			}
+		}
+		return -1
+	}
+	for _, in := range []bool{true, false} {
+		for o := -1; o <= 1; o++ {
+			var problems []string
+			ev := &eng.ConstEval{MaxDepth: 6}
+			ev.InlineArgs = func(callee *ssa.Function, args []eng.CVal) bool {
+				return core.FnPkgPath(callee) == mod+"/"+c12Lines
+			}
+			ev.OverrideIn = func(act *eng.CEResult, v ssa.Value, args []eng.CVal) (eng.CVal, bool) {
+				call, ok := v.(*ssa.Call)
+				if !ok {
+					return eng.CVal{}, false
+				}
+				callee := call.Call.StaticCallee()
+				if callee == nil {
+					return eng.CVal{}, false
+				}
+				switch {
+				case (calleeIs(callee, "bigxy", "OrientationIndex") || calleeIs(callee, "xy", "OrientationIndex")) && len(args) == 3:
+					a, b, t := idx(args[0]), idx(args[1]), idx(args[2])
+					switch {
+					case a == 1 && b == 2 && t == 0:
+						return eng.IntV(int64(o)), true
+					case a == 2 && b == 1 && t == 0:
+						return eng.IntV(int64(-o)), true
+					}
+					problems = append(problems, fmt.Sprintf("orientation test of %v: not the exact predicate of (lineStart, lineEnd, point)", args))
+					return eng.Top, true
+				case calleeIs(callee, "xy/internal", "IsPointWithinLineBounds") && len(args) == 3:
+					a, b, t := idx(args[1]), idx(args[2]), idx(args[0])
+					if t == 0 && (a == 1 && b == 2 || a == 2 && b == 1) {
+						return boolV(in), true
+					}
+					problems = append(problems, fmt.Sprintf("envelope test of %v: not (point, lineStart, lineEnd)", args))
+					return eng.Top, true
+				case calleeIs(callee, "xy/internal", "Equal"):
+					return eng.Top, true
+				}
+				if core.FnPkgPath(callee) != mod+"/"+c12Lines {
+					// any other computation on the coordinates (a determinant of rounded differences, ...) is not an exact predicate
+					for _, a := range args {
+						if idx(a) >= 0 {
+							return eng.Top, true
+						}
+					}
+				}
+				return eng.CVal{}, false
+			}
+			args := []eng.CVal{eng.Top, eng.SymV("data"), eng.SymV("point"), eng.SymV("lineStart"), eng.SymV("lineEnd")}
+			act := ev.RunStable(fn, args)
+			sf := &eng.SlotFlow{SlotOf: c.slotOf}
+			fin := sf.Final(act)
+			k, desc, okc := c.classOf(fin)
+			want := c.none
+			if in && o == 0 {
+				want = c.point
+			}
+			key := fmt.Sprintf("%s/in=%v,orientation=%+d", short(fn), in, o)
+			switch {
+			case len(problems) > 0:
+				r.Unknown(rule, key, p.Pos(fn.Pos()), strings.Join(problems, "; "))
+			default:
+				r.Check(okc && k == want, rule, key, p.Pos(fn.Pos()), true, c.className(want), fmt.Sprintf("point inside the segment's envelope: %v, orientation %+d: exact geometry dictates %s, the class stored is %s (a decision that depends on anything but the exact predicates of the three inputs cannot be bound)", in, o, c.className(want), desc))
+			}
+		}
+	}
+}
